@@ -170,6 +170,13 @@ def _one_command(st, m, form, s):
         st2, t2 = w.loop.run_coro(S.h.do_done(None))
         lines = lines + S.new_lines()
     reached()
+    if core.PARAMS.get("wellformed"):
+        # C07 runs the same driver with its own oracle: everything sent parses, response codes included
+        from asv.refmodel import response as RR
+
+        data = "".join(lines).encode("latin-1", "replace")
+        okw, why, _ = RR.check_stream(data)
+        check(okw, f"C07/command_response[{kind}]/response_not_wellformed", why=why, data=repr(data[:300]), mailbox=mbn, st=st, set=repr(over.get("msg_set")))
     check(r["status"] == "ok", f"C06/{tag}/command_never_completed", status=r["status"], mailbox=mbn, st=st)
     for ln in lines:
         check(ln.endswith("\r\n"), f"C06/{tag}/line_without_crlf", line=ln)
@@ -267,6 +274,11 @@ def jobs(tier):
                 js.append({"name": f"one_command[{kind},st={st}]", "fn": "one_command", "params": {"kind": kind, "n": 2, "st": st}, "timeout": T, "per_path": 90, "unblock": UNBLOCK})
         else:
             js.append({"name": f"one_command[{kind}]", "fn": "one_command", "params": {"kind": kind, "n": 2}, "timeout": T, "per_path": 90, "unblock": UNBLOCK})
+    if tier == "quick":
+        for kind in KINDS:
+            if KINDS[kind][1]:
+                # the empty mailbox (thorough runs n = 0 and n = 1 for every kind)
+                js.append({"name": f"one_command[{kind},n=0]", "fn": "one_command", "params": {"kind": kind, "n": 0}, "timeout": T, "per_path": 90, "unblock": UNBLOCK})
     js.append({"name": "proxy_run", "fn": "proxy_run", "params": {}, "timeout": T, "per_path": 90, "unblock": UNBLOCK})
     if tier == "thorough":
         for kind in KINDS:
